@@ -171,6 +171,7 @@ pub fn run(ctx: &Ctx) -> ! {
     cfg2.max_arg_maps = 1;
     let mut uni2 = Universe::sverif();
     uni2.datasets.retain(|d| matches!(d.name.as_str(), "counts0123"));
+    cfg2.stream_share = 1.0;
     let s2 = if ctx.elapsed() < ctx.budget_s() { Some(corpus::drive(ctx, &uni2, &cfg2, &|_| {}, &per_case, &|_, _| {})) } else { None };
 
     let mut c = cov();
